@@ -3,7 +3,8 @@
 Twin sessions over byte-identical copies of one generated database (mapping zoo of
 ``vf/gen/ormrig_gl.py``) receive the same generated history of *pending* changes (new
 objects linked through many-to-one attributes or collection appends, scalar sets,
-re-parenting, collection append / remove incl. many-to-many, deletes).  Then the same
+re-parenting, collection append / remove incl. many-to-many, deletes, delete followed by
+re-add (and delete again / re-add again) of the same persistent object).  Then the same
 read operation runs in both:
 
   twin A  relies on autoflush:            op()
@@ -13,13 +14,20 @@ Read operations: 2.0 selects of entities / columns with predicates on modified c
 joins and any() through modified relationships, aggregates, ORM UNION (compound select),
 legacy Query all / count / first, ``Session.get`` of a pending object's key, of a deleted
 object's key and of an unloaded key, lazy load of an expired collection whose members
-were re-parented, lazy load of a many-to-one.
+were re-parented, lazy load of a many-to-one, lazy load of ``viewonly=True`` relationships
+(filtered one-to-many ``A.hot_bs``, filtered many-to-many ``T.big_owners``).
 
 Oracle: (1) result snapshots (identity + loaded column values read from ``__dict__``;
 scalars as values) are equal twin vs twin; an exception in one twin must occur in the
 other (same type); (2) DBAPI spy: the multiset of INSERT/UPDATE/DELETE statements twin A
 emits during op() equals the one twin B emits in its explicit flush(), and in twin A every
 one of them precedes the final SELECT of the operation.
+
+(3) a two-line reference model of Session.delete()/Session.add(): after the flush (explicit
+in twin B, automatic in twin A when its read queried the database) the row of an object
+exists iff its last delete / re-add operation was the re-add - read through
+``exec_driver_sql`` on the session's own connection.  Objects that the same history also
+attaches to a parent are left out (attaching cancels a pending delete by design).
 
 Negative control (never asserted equal): a third twin runs op() inside
 ``session.no_autoflush`` / with ``autoflush=False`` execution option / in an
@@ -60,7 +68,8 @@ META = {
     "soft_s": {"quick": 45, "thorough": 600},
     "exhaustive": {"quick": False, "thorough": False},
     "require": ["cases_compared", "autoflush_dml_observed", "dml_before_select_checked", "negative_control_differs",
-                "get_ops", "lazy_ops", "legacy_ops"],
+                "get_ops", "lazy_ops", "legacy_ops", "viewonly_lazy_ops", "readd_histories",
+                "readd_or_delete_rows_checked"],
     "assumptions": ["an explicit Session.flush() followed by the read defines the reference result"],
 }
 
@@ -158,7 +167,17 @@ def gen_history(rng, zoo, pop):
             cand = pks(pop, cls)
             if not cand:
                 continue
-            hist.append({"op": "delete", "cls": cls, "pk": rng.choice(cand)})
+            pk = rng.choice(cand)
+            hist.append({"op": "delete", "cls": cls, "pk": pk})
+            # delete then re-add (Session.add of an object marked deleted cancels the
+            # pending delete), possibly deleted and re-added again
+            r2 = rng.random()
+            if r2 < 0.35:
+                hist.append({"op": "readd", "cls": cls, "pk": pk})
+                if r2 < 0.12:
+                    hist.append({"op": "delete", "cls": cls, "pk": pk})
+                    if r2 < 0.06:
+                        hist.append({"op": "readd", "cls": cls, "pk": pk})
     return hist
 
 
@@ -215,6 +234,11 @@ def apply_history(zoo, s, hist):
                 if o is None:
                     raise LookupError("gone")
                 s.delete(o)
+            elif kind == "readd":
+                o = obj(op["cls"], op["pk"])
+                if o is None:
+                    raise LookupError("gone")
+                s.add(o)
             out.append("ok")
         except (ValueError, KeyError, LookupError, AttributeError) as e:
             # e.g. remove() of a non-member, attribute of a row that does not exist:
@@ -298,6 +322,22 @@ def gen_read(rng, zoo, pop, hist):
                     cands.append((ri.target, op["link"][3], back[0]))
             elif op["op"] in ("append", "remove") and op["pk"] < 100:
                 cands.append((op["cls"], op["pk"], op["rel"]))
+        if rng.random() < 0.25:
+            # a viewonly relationship over rows that writable attributes have pending changes for
+            (c, rel) = rng.choice(sorted(zoo.view_rels))
+            if pks(pop, c):
+                pk = None
+                for op in hist:   # prefer an owner touched by the history
+                    if c == "A" and op["op"] == "new" and op["link"] and op["link"][-2:] != [] and fam(op["cls"]) == "B":
+                        lk = op["link"]
+                        pk = lk[3] if lk[0] == "m2o" else lk[2]
+                    elif c == "A" and op["op"] == "set_m2o" and op["cls"] == "B" and op["target"] is not None:
+                        pk = op["target"]
+                    elif c == "T" and op["op"] in ("append", "remove") and op["rel"] == "tags":
+                        pk = op["target"]
+                if pk is None or pk >= 100 or pk not in pks(pop, c) or rng.random() < 0.3:
+                    pk = rng.choice(pks(pop, c))
+                return {"kind": "lazy", "cls": c, "pk": pk, "rel": rel, "viewonly": True}
         if cands and rng.random() < 0.8:
             c, pk, rel = rng.choice(cands)
         else:
@@ -415,7 +455,7 @@ def do_read(sa, orm, R, zoo, s, rd, objs, control=None):
     if kind == "lazy":
         o = objs[(rd["cls"], rd["pk"])]
         v = getattr(o, rd["rel"])
-        ri = zoo.rel(rd["cls"], rd["rel"])
+        ri = zoo.view_rels[(rd["cls"], rd["rel"])] if rd.get("viewonly") else zoo.rel(rd["cls"], rd["rel"])
         if not ri.uselist:
             return R.ident(v)
         ids = [R.ident(x) for x in v]
@@ -530,6 +570,15 @@ def run_twin(sa, orm, R, zoo, engine, spy, hist, rd, mode):
         out["left_pending"] = sorted([R.ident(o) for o in s.deleted] + ["new:" + type(o).__name__ for o in s.new])
         out["read_log"] = stmts(spy.since(m1, kinds=("execute", "executemany")))
         out["read_dml"] = flat_dml(spy.since(m1, kinds=("execute", "executemany")))
+        try:
+            presence = {}
+            conn = s.connection()
+            for (c, pk) in expected_row_presence(hist, outcomes):
+                presence[f"{c}:{pk}"] = conn.exec_driver_sql(
+                    f"SELECT count(*) FROM {TABLE[c]} WHERE id = {int(pk)}").scalar() > 0
+            out["row_presence"] = presence
+        except Exception:
+            out["row_presence"] = None
         if "result" in out:
             out["result"] = canon(R, zoo, out["result"])
     finally:
@@ -603,9 +652,11 @@ def one_case(ctx, sa, orm, R, zoo, engines, spies, hist, rd, ctl, origin):
         ctx.count("get_ops")
     elif rd["kind"] == "lazy":
         ctx.count("lazy_ops")
+        if rd.get("viewonly"):
+            ctx.count("viewonly_lazy_ops")
     elif rd["kind"].startswith("legacy"):
         ctx.count("legacy_ops")
-    kind = rd["kind"]
+    kind = rd["kind"] + ("-viewonly" if rd.get("viewonly") else "")
     if b.get("error_phase") == "flush":
         # the pending state cannot be flushed: the autoflush twin must fail too
         ctx.count("flush_fails_in_reference")
@@ -640,6 +691,24 @@ def one_case(ctx, sa, orm, R, zoo, engines, spies, hist, rd, ctl, origin):
                       f"autoflush twin: {a.get('error')} {a.get('error_msg', '')[:150]} / explicit-flush twin: {b.get('error')}",
                       dict(witness, twin_a=a, twin_b=b))
         return
+    exp_presence = {f"{c}:{pk}": v for (c, pk), v in expected_row_presence(hist, b["history_outcomes"]).items()}
+    if exp_presence and "error" not in b:
+        ctx.count("readd_or_delete_rows_checked", len(exp_presence))
+        if any(op["op"] == "readd" for op in hist):
+            ctx.count("readd_histories")
+        twins = [("explicit-flush", b)]
+        if "error" not in a and any(is_select(x[0]) for x in a.get("read_log", [])):
+            twins.append(("autoflush", a))
+        for tname, t in twins:
+            got = t.get("row_presence")
+            if got is not None and got != exp_presence:
+                wrong = sorted(k for k in exp_presence if got.get(k) != exp_presence[k])
+                kinds = sorted({"readd-row-deleted" if exp_presence[k] else "deleted-row-still-present" for k in wrong})
+                ctx.violation(f"pending-delete-model-differs:{'+'.join(kinds)}",
+                              f"after the {tname} twin flushed, rows {wrong} are "
+                              f"{[got.get(k) for k in wrong]} (present?) but delete/re-add history says {[exp_presence[k] for k in wrong]}",
+                              dict(witness, twin_a=a, twin_b=b))
+                return
     ctx.count("cases_compared")
     if "error" in a:
         ctx.count("both_raised")
@@ -692,6 +761,25 @@ def one_case(ctx, sa, orm, R, zoo, engines, spies, hist, rd, ctl, origin):
             ctx.seen("controls_that_differed", ctl)
     if len(ctx.samples) < 3 and nontrivial:
         ctx.sample({"history": hist, "read": rd, "result": a["result"], "autoflush_dml": [x[0][:80] for x in dml_a]})
+
+
+def expected_row_presence(hist, outcomes):
+    """Reference model for delete / re-add: {(cls, pk): row must exist after the flush}
+    for persistent objects whose only structural operations were Session.delete() and
+    Session.add() (objects that are also attached to a parent in the same history are
+    left out: attaching cancels a pending delete by design)."""
+    attached = set()
+    for op in hist:
+        if op["op"] == "set_m2o":
+            attached.add((fam(op["cls"]), op["pk"]))
+        elif op["op"] in ("append", "remove"):
+            attached.add((fam(op["tcls"]), op["target"]))
+            attached.add((fam(op["cls"]), op["pk"]))
+    last = {}
+    for op, out in zip(hist, outcomes):
+        if op["op"] in ("delete", "readd") and out == "ok" and op["pk"] < 100:
+            last[(fam(op["cls"]), op["pk"])] = op["op"]
+    return {k: v == "readd" for k, v in last.items() if k not in attached}
 
 
 def classify_incomplete_flush(hist):
